@@ -52,6 +52,11 @@ type wop struct {
 	GenID       bool // WithGenIDIfAbsent (+ id callback)
 	CreatedCB   bool
 	CBMark      bool // the id / created callbacks write into the message that is being written (B = true), as the trait models do with generated ids
+	// WithMoreUpdateMask: after the update mask (adds to it; nothing to add to if there is none), or - MoreFirst, only
+	// without a mask - before an explicit WithUpdateMask(nil), which still means "no mask: the whole message"
+	HasMore   bool
+	MoreMask  []string
+	MoreFirst bool
 	HasWT       bool
 	WT          time.Time
 	AllWritable bool // WithAllFieldsWritable
@@ -107,6 +112,9 @@ func (o wop) String() string {
 	}
 	if o.CBMark {
 		sb.WriteString(" callbacksMarkTheMessage")
+	}
+	if o.HasMore {
+		fmt.Fprintf(&sb, " moreMask%v(first=%v)", o.MoreMask, o.MoreFirst)
 	}
 	if o.HasWT {
 		fmt.Fprintf(&sb, " writeTime=%d", o.WT.UnixNano())
@@ -420,8 +428,14 @@ func (o wop) writeOpts(res *wres, withBallast bool) []resource.WriteOption {
 // writeOptsMsg: msg is the message handed to the write (callbacks that complete it - CBMark - write into it).
 func (o wop) writeOptsMsg(res *wres, withBallast bool, msg *testproto.TestAllTypes) []resource.WriteOption {
 	var opts []resource.WriteOption
+	if o.HasMore && o.MoreFirst && !o.HasMask {
+		opts = append(opts, resource.WithMoreUpdateMask(fm(o.MoreMask)), resource.WithUpdateMask(nil))
+	}
 	if o.HasMask {
 		opts = append(opts, resource.WithUpdateMask(fm(o.Mask)))
+	}
+	if o.HasMore && !o.MoreFirst {
+		opts = append(opts, resource.WithMoreUpdateMask(fm(o.MoreMask)))
 	}
 	if o.Reset != nil {
 		opts = append(opts, resource.WithResetMask(fm(o.Reset)))
@@ -740,6 +754,16 @@ func (m *model) mapID(id string) string {
 // oracle checks the id's properties separately) — only used when op.GenID and the given id is empty.
 func (m *model) apply(o wop, genID string) wres {
 	var res wres
+	if o.HasMore && o.HasMask && !o.MoreFirst {
+		// more paths after a mask: the mask is the union
+		mask := append([]string{}, o.Mask...)
+		for _, p := range o.MoreMask {
+			if !contains(mask, p) {
+				mask = append(mask, p)
+			}
+		}
+		o.Mask = mask
+	}
 	switch o.Kind {
 	case opSet:
 		if c := m.validate(o); c != codes.OK {
